@@ -688,6 +688,9 @@ func (fr *frame) applyContract(b *ssa.BasicBlock, site ssa.Instruction, con *Con
 	if con.Trusted {
 		x.assumed["assumed contract of "+name] = true
 	}
+	if !con.Extern && !con.Trusted && !con.Pure {
+		x.usedCons[con.CalleeKey] = con
+	}
 	// contract of a method of a generic type applied at an instantiation: the contract's clauses are typed with the
 	// type parameters; heap keys derived from those types must be the caller's (instantiated) ones
 	if ci, ok := site.(ssa.CallInstruction); ok {
